@@ -174,6 +174,24 @@ def exOuter : FieldDecl :=
 def exInst : PyVal :=
   .inst "Outer" [("n", .inst "Inner" [("a", .int 0)]), ("tag", .str ""), ("xs", .list [])]
 
+/-- a class with a Set, a Map with String keys holding nested lists, and an Optional Map -/
+def exColl : FieldDecl :=
+  .struct { name := "Coll", required := ["s"], accepts := ["Coll"] }
+    [("s", .setOf false (.integer {}) { max := some 3 }),
+     ("m", .mapOf (.string none none none) (.seqOf .list (.boolean) {}) {}),
+     ("o", .anyOf [.noneF, .mapOf (.string (some 1) none none) (.integer {}) {}])] []
+def exCollInst : PyVal :=
+  .inst "Coll" [("s", .set false [.int 0, .int 2]), ("m", .dict [(.str "", .list []), (.str "k", .list [.bool false])])]
+
+theorem set_map_round_trip_example :
+    inFrag exO exColl exCollInst = true
+    ∧ (match serialize exO exColl exCollInst with
+        | .ok j => isJson j && (match deserialize exO {} exColl j with
+            | .ok (.inst "Coll" [("s", .set false [.int 0, .int 2]), ("m", .dict [(.str "", .list []), (.str "k", .list [.bool false])])]) => true
+            | _ => false)
+        | .error _ => false) = true := by
+  decide
+
 theorem class_round_trip_example :
     inFrag exO exOuter exInst = true
     ∧ (match serialize exO exOuter exInst with
